@@ -1,0 +1,294 @@
+//go:build verif
+
+// Verification hook for property C18 (add-only, compiled only with -tags verif).
+// A thin exported driver over the real, unexported download `queue`: every method below calls the
+// queue method of the same name and translates unexported types into plain data. No queue logic is
+// re-implemented here except VerifLimit, a read-only copy of the first three lines of resultSlots
+// (the memory-capped window length), which the model takes as an input.
+
+package downloader
+
+import (
+	"sort"
+	"time"
+
+	"github.com/youchainhq/go-youchain/common"
+	"github.com/youchainhq/go-youchain/core/types"
+)
+
+// VerifQueue drives one real queue with a set of fake peer connections (id + lacking set only).
+type VerifQueue struct {
+	q     *queue
+	peers map[string]*peerConnection
+	lastB map[string]*fetchRequest // last body request handed to the peer by ReserveBodies
+	lastR map[string]*fetchRequest // last receipt request handed to the peer by ReserveReceipts
+}
+
+// VerifResult is one fetchResult as handed to the importer.
+type VerifResult struct {
+	Pending      int
+	Hash         common.Hash
+	Header       *types.Header
+	Transactions types.Transactions
+	Receipts     types.Receipts
+}
+
+// VerifRequest is the observable part of a fetchRequest.
+type VerifRequest struct {
+	Peer    string
+	Headers []*types.Header
+}
+
+// VerifCacheEntry is one non-nil slot of resultCache.
+type VerifCacheEntry struct {
+	Index   int // slot index in resultCache
+	Pending int
+	Hash    common.Hash
+	Header  *types.Header
+	HasTxs  bool
+	HasRcs  bool
+}
+
+// VerifDump is a canonical (sorted) copy of the bookkeeping state.
+type VerifDump struct {
+	Mode             SyncMode
+	ResultOffset     uint64
+	CacheLen         int
+	Cache            []VerifCacheEntry
+	HeaderHead       common.Hash
+	BlockTaskPool    []common.Hash   // sorted
+	BlockTaskQueue   []*types.Header // in pop order
+	BlockPend        []VerifRequest  // sorted by peer id
+	BlockDonePool    []common.Hash   // sorted
+	ReceiptTaskPool  []common.Hash
+	ReceiptTaskQueue []*types.Header
+	ReceiptPend      []VerifRequest
+	ReceiptDonePool  []common.Hash
+	Lacking          map[string][]common.Hash // sorted per peer
+	PendingBlocks    int
+	PendingReceipts  int
+	InFlightBlocks   bool
+	InFlightReceipts bool
+	Idle             bool
+	ThrottleBlocks   bool
+	ThrottleReceipts bool
+}
+
+// VerifSetLimits sets the package-level sizing variables the queue reads (they are vars upstream
+// too). Call before VerifNewQueue; returns the previous values.
+func VerifSetLimits(cacheItems, cacheMemory, maxResults int) (int, int, int) {
+	a, b, c := blockCacheItems, blockCacheMemory, maxResultsProcess
+	blockCacheItems, blockCacheMemory, maxResultsProcess = cacheItems, cacheMemory, maxResults
+	return a, b, c
+}
+
+// VerifNewQueue = newQueue() followed by Prepare(offset, mode), as synchronise/syncWithPeer do.
+func VerifNewQueue(offset uint64, mode SyncMode) *VerifQueue {
+	q := newQueue()
+	q.Reset()
+	q.Prepare(offset, mode)
+	return &VerifQueue{q: q, peers: map[string]*peerConnection{}, lastB: map[string]*fetchRequest{}, lastR: map[string]*fetchRequest{}}
+}
+
+func (v *VerifQueue) peer(id string) *peerConnection {
+	p := v.peers[id]
+	if p == nil {
+		p = newPeerConnection(id, nil, nil)
+		v.peers[id] = p
+	}
+	return p
+}
+
+// VerifErrClass maps the queue's error values to a small enum.
+func VerifErrClass(err error) string {
+	switch err {
+	case nil:
+		return "ok"
+	case errNoFetchesPending:
+		return "nofetch"
+	case errStaleDelivery:
+		return "stale"
+	case errInvalidChain:
+		return "invalidchain"
+	}
+	return "partial" // fmt.Errorf("partial failure: %v", ...)
+}
+
+func (v *VerifQueue) Schedule(headers []*types.Header, from uint64) []*types.Header {
+	return v.q.Schedule(headers, from)
+}
+
+func reqView(r *fetchRequest) *VerifRequest {
+	if r == nil {
+		return nil
+	}
+	return &VerifRequest{Peer: r.Peer.id, Headers: append([]*types.Header{}, r.Headers...)}
+}
+
+func (v *VerifQueue) ReserveBodies(peer string, count int) (*VerifRequest, bool, error) {
+	r, progress, err := v.q.ReserveBodies(v.peer(peer), count)
+	if r != nil {
+		v.lastB[peer] = r
+	}
+	return reqView(r), progress, err
+}
+
+func (v *VerifQueue) ReserveReceipts(peer string, count int) (*VerifRequest, bool, error) {
+	r, progress, err := v.q.ReserveReceipts(v.peer(peer), count)
+	if r != nil {
+		v.lastR[peer] = r
+	}
+	return reqView(r), progress, err
+}
+
+func (v *VerifQueue) DeliverBodies(peer string, txLists [][]*types.Transaction) (int, error) {
+	return v.q.DeliverBodies(peer, txLists)
+}
+
+func (v *VerifQueue) DeliverReceipts(peer string, receipts [][]*types.Receipt) (int, error) {
+	return v.q.DeliverReceipts(peer, receipts)
+}
+
+// CancelBodies cancels the peer's body request if (and only if) the request last handed to that peer
+// is still the one in the pending pool — the only way fetchParts could ever call cancel.
+func (v *VerifQueue) CancelBodies(peer string) bool {
+	r := v.lastB[peer]
+	v.q.lock.Lock()
+	cur := v.q.blockPendPool[peer]
+	v.q.lock.Unlock()
+	if r == nil || cur != r {
+		return false
+	}
+	v.q.CancelBodies(r)
+	return true
+}
+
+func (v *VerifQueue) CancelReceipts(peer string) bool {
+	r := v.lastR[peer]
+	v.q.lock.Lock()
+	cur := v.q.receiptPendPool[peer]
+	v.q.lock.Unlock()
+	if r == nil || cur != r {
+		return false
+	}
+	v.q.CancelReceipts(r)
+	return true
+}
+
+// ExpireBodies makes the requests of the listed peers overdue (their timestamps are moved one hour
+// into the past) and then calls the real ExpireBodies with a 30 minute allowance; wall-clock time is
+// thereby an explicit input.
+func (v *VerifQueue) ExpireBodies(overdue []string) map[string]int {
+	v.q.lock.Lock()
+	for _, id := range overdue {
+		if r := v.q.blockPendPool[id]; r != nil {
+			r.Time = time.Now().Add(-time.Hour)
+		}
+	}
+	v.q.lock.Unlock()
+	return v.q.ExpireBodies(30 * time.Minute)
+}
+
+func (v *VerifQueue) ExpireReceipts(overdue []string) map[string]int {
+	v.q.lock.Lock()
+	for _, id := range overdue {
+		if r := v.q.receiptPendPool[id]; r != nil {
+			r.Time = time.Now().Add(-time.Hour)
+		}
+	}
+	v.q.lock.Unlock()
+	return v.q.ExpireReceipts(30 * time.Minute)
+}
+
+func (v *VerifQueue) Revoke(peer string) { v.q.Revoke(peer) }
+
+// Results = queue.Results(false): never blocks.
+func (v *VerifQueue) Results() []*VerifResult {
+	rs := v.q.Results(false)
+	out := make([]*VerifResult, 0, len(rs))
+	for _, r := range rs {
+		out = append(out, &VerifResult{Pending: r.Pending, Hash: r.Hash, Header: r.Header, Transactions: r.Transactions, Receipts: r.Receipts})
+	}
+	return out
+}
+
+// VerifLimit is the window length resultSlots would use right now (copy of its first lines).
+func (v *VerifQueue) VerifLimit() int {
+	q := v.q
+	q.lock.Lock()
+	defer q.lock.Unlock()
+	limit := len(q.resultCache)
+	if common.StorageSize(len(q.resultCache))*q.resultSize > common.StorageSize(blockCacheMemory) {
+		limit = int((common.StorageSize(blockCacheMemory) + q.resultSize - 1) / q.resultSize)
+	}
+	return limit
+}
+
+func sortedHashes(m map[common.Hash]struct{}) []common.Hash {
+	out := make([]common.Hash, 0, len(m))
+	for h := range m {
+		out = append(out, h)
+	}
+	sort.Slice(out, func(i, j int) bool { return string(out[i][:]) < string(out[j][:]) })
+	return out
+}
+
+func sortedKeys(m map[common.Hash]*types.Header) []common.Hash {
+	out := make([]common.Hash, 0, len(m))
+	for h := range m {
+		out = append(out, h)
+	}
+	sort.Slice(out, func(i, j int) bool { return string(out[i][:]) < string(out[j][:]) })
+	return out
+}
+
+func pendView(m map[string]*fetchRequest) []VerifRequest {
+	out := make([]VerifRequest, 0, len(m))
+	for _, r := range m {
+		out = append(out, *reqView(r))
+	}
+	sort.Slice(out, func(i, j int) bool { return out[i].Peer < out[j].Peer })
+	return out
+}
+
+// Dump copies the bookkeeping state. The two priority queues are read by popping everything and
+// pushing it back with the priority the queue itself uses (-number).
+func (v *VerifQueue) Dump() *VerifDump {
+	d := &VerifDump{
+		PendingBlocks: v.q.PendingBlocks(), PendingReceipts: v.q.PendingReceipts(),
+		InFlightBlocks: v.q.InFlightBlocks(), InFlightReceipts: v.q.InFlightReceipts(),
+		Idle: v.q.Idle(), ThrottleBlocks: v.q.ShouldThrottleBlocks(), ThrottleReceipts: v.q.ShouldThrottleReceipts(),
+		Lacking: map[string][]common.Hash{},
+	}
+	q := v.q
+	q.lock.Lock()
+	defer q.lock.Unlock()
+	d.Mode, d.ResultOffset, d.CacheLen, d.HeaderHead = q.mode, q.resultOffset, len(q.resultCache), q.headerHead
+	for i, r := range q.resultCache {
+		if r != nil {
+			d.Cache = append(d.Cache, VerifCacheEntry{Index: i, Pending: r.Pending, Hash: r.Hash, Header: r.Header,
+				HasTxs: r.Transactions != nil, HasRcs: r.Receipts != nil})
+		}
+	}
+	d.BlockTaskPool, d.ReceiptTaskPool = sortedKeys(q.blockTaskPool), sortedKeys(q.receiptTaskPool)
+	d.BlockDonePool, d.ReceiptDonePool = sortedHashes(q.blockDonePool), sortedHashes(q.receiptDonePool)
+	for !q.blockTaskQueue.Empty() {
+		d.BlockTaskQueue = append(d.BlockTaskQueue, q.blockTaskQueue.PopItem().(*types.Header))
+	}
+	for _, h := range d.BlockTaskQueue {
+		q.blockTaskQueue.Push(h, -int64(h.Number.Uint64()))
+	}
+	for !q.receiptTaskQueue.Empty() {
+		d.ReceiptTaskQueue = append(d.ReceiptTaskQueue, q.receiptTaskQueue.PopItem().(*types.Header))
+	}
+	for _, h := range d.ReceiptTaskQueue {
+		q.receiptTaskQueue.Push(h, -int64(h.Number.Uint64()))
+	}
+	d.BlockPend, d.ReceiptPend = pendView(q.blockPendPool), pendView(q.receiptPendPool)
+	for id, p := range v.peers {
+		p.lock.RLock()
+		d.Lacking[id] = sortedHashes(p.lacking)
+		p.lock.RUnlock()
+	}
+	return d
+}
